@@ -61,7 +61,7 @@ def strategy_(draw, tier):
     events = draw(st.permutations(events))
     nchunks = draw(st.integers(1, 3))
     chunks = [draw(st.integers(1, 6)) for _ in range(nchunks)]
-    mode = draw(st.sampled_from(['direct', 'engine', 'helper']))
+    mode = draw(st.sampled_from(['direct', 'engine', 'helper', 'experiment']))
     return {'mode': mode, 'dt': dt, 'chunks': chunks,
             'events': [list(e) for e in events]}
 
@@ -148,6 +148,58 @@ def make_inc_step(varkeys):
     return IncStep()
 
 
+def make_declarer(varkeys):
+    from vivarium.core.process import Process
+
+    class Declarer(Process):
+        name = 'declarer'
+
+        def ports_schema(self):
+            schema = {}
+            for port, var in varkeys:
+                schema.setdefault(port, {})[var] = {
+                    '_default': 0, '_emit': True}
+            return schema
+
+        def next_update(self, timestep, states):
+            return {}
+    return Declarer()
+
+
+def run_experiment(spec, res):
+    """The composition helper: process_in_experiment(settings={'timeline'})."""
+    from vivarium.core.composition import process_in_experiment
+    dt = spec['dt']
+    events = build_events(spec)
+    varkeys = sorted({k for _, ch in events for k in ch})
+    engine = process_in_experiment(
+        make_declarer(varkeys),
+        settings={'timeline': {'timeline': events, 'time_step': dt},
+                  'display_info': False})
+    total = 0
+    for c in spec['chunks']:
+        engine.update(c * dt)
+        total += c
+    data = engine.emitter.get_data()
+    # the declarer runs with timestep 1: rows also exist at whole seconds;
+    # compare at the timeline's ticks
+    expected = ref.trajectory(build_events(spec), dt, total, varkeys, inc=0)
+    for k in range(total + 1):
+        t = k * dt
+        row = data.get(t)
+        if row is None:
+            res.fail('times', 'no emitted row at the timeline tick t=%r (rows '
+                     'at %r)' % (t, sorted(data)))
+            return
+        for (port, var) in varkeys:
+            got = row.get(port, {}).get(var, 'MISSING')
+            if got != expected[k][(port, var)]:
+                res.fail('trajectory', 't=%s %s/%s: emitted %r, expected %r '
+                         '(process_in_experiment)' % (
+                             t, port, var, got, expected[k][(port, var)]))
+                return
+
+
 def run_engine(spec, res):
     from vivarium.core.engine import Engine
     from vivarium.processes.timeline import TimelineProcess
@@ -199,6 +251,8 @@ def run_case(spec):
     try:
         if spec['mode'] == 'direct':
             run_direct(spec, res)
+        elif spec['mode'] == 'experiment':
+            run_experiment(spec, res)
         else:
             run_engine(spec, res)
     except Exception as e:
